@@ -162,6 +162,12 @@ def check_upper(case):
             jv = call(pv.calculate_partial_fluxes, feed_temperature=t, composition=comp, calculation_type=mdl)
             yy = float(j[0]) / (float(j[0]) + float(j[1])) if float(j[0]) + float(j[1]) != 0 else 0.5
             edge = max(min(yy, 1.0 - yy), 1e-300)
+            # the smallest fraction met by ANY iterate counts: its complement 1-y carries eps/min(y,1-y) relative error, which the
+            # next evaluation hands on to the minor flux (thorough-tier false alarm: first iterate 2.7e-11, final 1.7e-7)
+            its = [e[0] for e in tra.evals if e[0] is not None]
+            if its:
+                edge = max(min(edge, min(min(v, 1.0 - v) for v in its)), 1e-300)
+            edge_it = edge
             tot = abs(float(j[0])) + abs(float(j[1]))  # with back pressure the permeate-side term (~ total flux scale) can dominate
             # near equilibrium the rounding of one iterate is amplified by the cancellation factor before it reaches the next flux
             amp = 1.0 if is_raised(jv) else max(1.0, max(abs(float(jv[i])) / max(abs(float(j[i])), 1e-300) for i in (0, 1)))
@@ -180,9 +186,9 @@ def check_upper(case):
                             dc.partial_fluxes[0], dc2.partial_fluxes[0])
                 sf, sf2 = float(dc.get_separation_factor[0]), float(dc2.get_separation_factor[0])
                 yc, wc = dc.permeate_composition[0].p, comp.to_weight(mix).p
-                edge = min(yc, 1 - yc, wc, 1 - wc)
+                edge = min(yc, 1 - yc, wc, 1 - wc, edge_it)
                 if math.isfinite(sf) and sf > 0 and math.isfinite(sf2) and edge > 1e-9:
-                    require(relerr(sf * sf2, 1.0) <= 100 * tol + 1e-13 / edge, "curve separation factor %r is not the inverse of the relabelled one %r", sf, sf2)
+                    require(relerr(sf * sf2, 1.0) <= 100 * tol + 1e-13 * amp / edge, "curve separation factor %r is not the inverse of the relabelled one %r", sf, sf2)
                 if mdl == "NRTL":  # a curve inverts fluxes with NRTL whatever model produced them
                     se, se2 = float(dc.get_selectivity[0]), float(dc2.get_selectivity[0])
                     # the inversion divides by feed - permeate pressure: rounding in the iterate is amplified by the cancellation
